@@ -265,5 +265,31 @@ _WAVE3 = {
 for _k, _v in _WAVE3.items():
     PROPS[_k]["rule"] += "; third wave: " + _v
 
+# additions of the fourth seeding wave (DESIGN.md 7.10)
+_WAVE4 = {
+    "C01": "independent sessions side by side on 3 x GOMAXPROCS goroutines",
+    "C02": "announced chunk sizes above 2^24 with small low bytes",
+    "C03": "waits through the Packet interface, commands as AMF3 command messages in typed waits, independent histories side by side; amf0 names of 255..4096 bytes and names differing in case / trailing NULs",
+    "C04": "a typed reader goroutine (ExpectPacket with the response type), fractional and >= 2^63 transaction ids outstanding together",
+    "C05": "container chains 64..1000 deep, long and related property names, independent trees side by side",
+    "C06": "container chains 64..1000 deep in both directions, long and related property names, independent values side by side",
+    "C07": "websocket streaming reads (NextReader, read after end, stale reader)",
+    "C08": "transient read faults (one Read fails after k bytes, then the transport recovers) for every k; a long message in chunks of 1-9 bytes under write faults",
+    "C09": "every body size 2^k-20..2^k+4 (k=8..16), tag headers that spell the file signature, a transport refusing the first write of a tag once, independent files side by side",
+    "C10": "payloads that are ADTS frames / start with start codes or signatures, Opus payloads of 1268..1282 bytes, independent packagers side by side",
+    "C11": "raw blocks that are themselves ADTS frames, rejected frames inside the object machine, independent ADTS objects side by side",
+    "C12": "profile/level/constraint bytes from the standard's values, SPS+PPS counts summing to 256/255/32/224, a second record of equal length received into the same buffer, independent records side by side",
+    "C13": "independent connections side by side (shared pools of the compression layer)",
+    "C14": "permessage-deflate negotiated: compressed messages in fragments, every RSV combination with RSV2/RSV3; read buffers of 14..124 bytes; reasons behind invalid close codes; independent connections side by side",
+    "C15": "permessage-deflate negotiated, pings/pongs sent by the writer goroutine through the message API, WriteControl deadlines already expired or far ahead, ping/pong payloads on the wire matched against the senders'",
+    "C16": "drawn ordered sets of 2-4 recipients / signers over all algorithms (RSA recipients with different keys of one size), independent encrypters side by side with 200 KB - 1 MiB payloads",
+    "C17": "string literals of 66-140 KB built from escape units at every alignment, independent readers side by side",
+    "C18": "Switch(w), Close(), Switch(w) with the same writer",
+    "C19": "strings holding a literal backslash followed by u0026/u003c/u003e",
+    "C20": "instants not aligned to milliseconds",
+}
+for _k, _v in _WAVE4.items():
+    PROPS[_k]["rule"] += "; fourth wave: " + _v
+
 NOT_APPLICABLE = {}
 HOOK_COMMITS = ["ba4d95f68dd5a0290f21f6bb6c969f905e9412da", "a27187fa8bc3d23076469a07766dcee96b1efc22"]
